@@ -97,4 +97,29 @@ def sqrtR (x : Rat) : Rat :=
 def sqrtExact (x : Rat) : Bool :=
   decide (x ≤ 0) || (let n := x.num.toNat; let d := x.den; decide (isqrt n * isqrt n = n) && decide (isqrt d * isqrt d = d))
 
+/-! ### a rounded rational scalar for long computations
+
+`Fx` wraps a rational that is kept on the grid 2⁻¹²⁸·ℤ: products and quotients are rounded down to the grid, sums and
+differences of grid values stay on it.  Instantiating the polymorphic model at `Fx` keeps the size of every number
+bounded over hundreds of arithmetic steps (the exact `Rat` instance grows without bound through divisions); the price is an
+absolute error of 2⁻¹²⁸ per operation, negligible against the declared tolerances. -/
+structure Fx where
+  v : Rat
+  deriving BEq, DecidableEq
+
+instance : Add Fx := ⟨fun a b => ⟨a.v + b.v⟩⟩
+instance : Sub Fx := ⟨fun a b => ⟨a.v - b.v⟩⟩
+instance : Neg Fx := ⟨fun a => ⟨-a.v⟩⟩
+instance : Mul Fx := ⟨fun a b => ⟨rnd (a.v * b.v)⟩⟩
+instance : Div Fx := ⟨fun a b => ⟨rnd (a.v / b.v)⟩⟩
+instance : Zero Fx := ⟨⟨0⟩⟩
+instance : One Fx := ⟨⟨1⟩⟩
+instance : NatCast Fx := ⟨fun n => ⟨(n : Rat)⟩⟩
+instance : LT Fx := ⟨fun a b => a.v < b.v⟩
+instance : DecidableLT Fx := fun a b => inferInstanceAs (Decidable (a.v < b.v))
+instance : LE Fx := ⟨fun a b => a.v ≤ b.v⟩
+instance : DecidableLE Fx := fun a b => inferInstanceAs (Decidable (a.v ≤ b.v))
+
+def Fx.of (q : Rat) : Fx := ⟨rnd q⟩
+
 end TapkeeVerif.RatFn
